@@ -83,7 +83,7 @@ def execute(case):
 def plan(tier):
     cases = []
     for level in ("1.5", "1.1"):
-        for L in range(1, 7):
+        for L in range(1, 7) if tier == "quick" else range(1, 11):
             for fs in ("mcfs", "local") if tier == "thorough" else ("mcfs",):
                 cases.append({"level": level, "L": L, "P": 3, "fs": fs, "cache_rpc": None})
             for cache_rpc in (1, 2, 4096) if tier == "thorough" else (2,):
@@ -93,7 +93,7 @@ def plan(tier):
 
 def run(res, tier, seed):
     res.rule = (
-        "L in 1..6 x rpc in {1..L+4, 1024, 1e9} x level {1.1 (C*8), 1.5 (IU2)}, three images of different size (shorter and longer than the first) per product;"
+        "L in 1..6 (thorough: 1..10) x rpc in {1..L+4, 1024, 1e9} x level {1.1 (C*8), 1.5 (IU2)}, three images of different size (shorter and longer than the first) per product;"
         " every tree fully loaded and compared leaf by leaf with the rpc=1 tree (all pairs for L<=3); cache legs open the"
         " same product after create_cache=True at another rpc. Every case compares >= 8 trees, all non-trivial."
     )
